@@ -42,18 +42,48 @@ def build_graph(n, fixed, perm, fold, mods=GRAPH_MODS, bounds=None, present=None
     return vm, ctx, fr, e, g
 
 
+def seq_entries(ctx, out):
+    """(guard, element) pairs of whatever sequence-like value the code under test returned: a generator's guarded yields, a list
+    (possibly of symbolic length), an iterator over one, a native list/tuple, or a guarded union of those"""
+    ent = []
+    for (ga, o) in alts_of(out):
+        if isinstance(o, see.ListIter):
+            o = o.lst
+        if isinstance(o, GSeq):
+            ent += [(b_and(ga, g), x) for g, x in o.entries]
+        elif isinstance(o, MList):
+            ent += [(b_and(ga, ctx.in_len(o, k)), o.slots[k]) for k in range(o.hi)]
+        elif isinstance(o, (list, tuple)):
+            ent += [(ga, x) for x in o]
+        else:
+            raise see.Unsupported('compute_SCCs returned %s' % type(o).__name__)
+    return ent
+
+
 # ------------------------------------------------------------------ C12
-def scc_task(n, perm, fold, fixed, audit=True, u=None):
-    """all graphs on n nodes (minus forked bits): compute_SCCs == mutual reachability classes"""
+def scc_task(n, perm, fold, fixed, audit=True, u=None, history=None):
+    """all graphs on n nodes (minus forked bits): compute_SCCs == mutual reachability classes
+    history=(a, b): compute_SCCs(G); G.add_edge(a, b) on graphs without that edge; compute_SCCs(G) again - the second answer is decided"""
     import pyModelChecking.graph as G
     see.reset()
     t0 = time.time()
     u = list(u) if u else list(range(n))          # node values
+    fixed = dict(fixed)
+    if history:
+        fixed['e_%d_%d' % tuple(history)] = False
     vm, ctx, fr, e, g = build_graph(n, fixed, perm, fold, bounds={'compute_SCCs': n * n + n}, u=u)
+    if history:
+        ctx.call(G.compute_SCCs, [g], {})
+        ctx.call(ctx.getattr1(g, 'add_edge'), [u[history[0]], u[history[1]]], {})
+        fixed_now = dict(fixed)
+        fixed_now['e_%d_%d' % tuple(history)] = True
+    else:
+        fixed_now = fixed
     out = ctx.call(G.compute_SCCs, [g], {})
     t1 = time.time()
     comps = []
-    for (gy, lst) in out.entries:
+    ents = seq_entries(ctx, out)
+    for (gy, lst) in ents:
         mem = [b_and(gy, b_or(*[b_and(ctx.in_len(lst, k), ctx.eq(lst.slots[k], u[i])) for k in range(lst.hi)])) for i in range(n)]
         dup = b_or(*[b_and(gy, ctx.in_len(lst, k), ctx.in_len(lst, l), ctx.eq(lst.slots[k], lst.slots[l]))
                      for k in range(lst.hi) for l in range(k + 1, lst.hi)])
@@ -73,11 +103,11 @@ def scc_task(n, perm, fold, fixed, audit=True, u=None):
     encoded = sorted(vm.encoded)
     loops = {('%s:%d' % k): v for k, v in vm.stats['loops'].items()}
     d = Decider(timeout_ms=1800000)
-    e2 = ematrix(n, fixed)
+    e2 = ematrix(n, fixed_now)
     reach = oracles.closure(e2, n)
     want = [b_and(reach[i][j], reach[j][i]) for (i, j) in pairs]
     r = d.differ(same, want, bad)
-    res = dict(kind='scc', n=n, perm=perm, fold=fold, fixed=len(fixed), univ=(u if u != list(range(n)) else None), verdict=r, encode_s=round(t1 - t0, 2), yields=len(out.entries),
+    res = dict(kind='scc', n=n, perm=perm, fold=fold, fixed=len(fixed), fixed_bits={k: bool(v) for k, v in fixed.items()}, history=list(history) if history else None, univ=(u if u != list(range(n)) else None), verdict=r, encode_s=round(t1 - t0, 2), yields=len(ents),
                exc=exc_kinds(fr), loops=loops, encoded=encoded, unwind_open=len(vm.unwind))
     if r == 'sat':
         m = d.differ_model(same, want, bad)
@@ -106,6 +136,11 @@ plain = %(plain)r
 univ = %(univ)r
 nodes = (list(univ) if univ else list(range(n))) if plain else [St(i, order.index(i)) for i in range(n)]
 G = DiGraph(V=[nodes[i] for i in order], E=[(nodes[i], nodes[j]) for (i, j) in E])
+hist = %(hist)r
+if hist:
+    print('history: compute_SCCs ->', [list(c) for c in compute_SCCs(G)], '; then add_edge', tuple(hist), '; then compute_SCCs again')
+    G.add_edge(nodes[hist[0]], nodes[hist[1]])
+    E = E + [tuple(hist)]
 idx = (lambda v: (univ.index(v) if univ else v)) if plain else (lambda v: v.i)
 try:
     comps = [[idx(v) for v in c] for c in compute_SCCs(G)]
@@ -132,9 +167,11 @@ print('no violation on this input')
 
 def scc_replay(res):
     n, perm, m = res['n'], res['perm'] or list(range(res['n'])), res['model']
+    m = dict(m)
+    m.update(res.get('fixed_bits') or {})
     E = [(i, j) for i in range(n) for j in range(n) if m.get('e_%d_%d' % (i, j))]
     for plain in ([True] if list(perm) == list(range(n)) else [False, True]):
-        body = SCC_REPLAY % dict(n=n, order=list(perm) if not plain else list(range(n)), E=E, plain=plain, univ=res.get('univ'))
+        body = SCC_REPLAY % dict(n=n, order=list(perm) if not plain else list(range(n)), E=E, plain=plain, univ=res.get('univ'), hist=res.get('history'))
         path = write_replay('C12', body)
         ok, out = run_replay(path)
         if ok:
